@@ -396,8 +396,12 @@ class SecopClient(ProxyClient):
 
                     # now its safe to do secop stuff
                     self._running = True
-                    self._rxthread = mkthread(self.__rxthread)
-                    self._txthread = mkthread(self.__txthread)
+                    # the threads clear self._rxthread / self._txthread when they end:
+                    # they must not get that far before these are assigned
+                    registered = Event()
+                    self._rxthread = mkthread(self.__rxthread, registered)
+                    self._txthread = mkthread(self.__txthread, registered)
+                    registered.set()
                     self.log.debug('connected to %s', self.uri)
                     # pylint: disable=unsubscriptable-object
                     self._init_descriptive_data(self.request(DESCRIPTIONREQUEST)[2])
@@ -417,7 +421,8 @@ class SecopClient(ProxyClient):
             if not self._shutdown.is_set():
                 self.log.info('%s ready', self.nodename)
 
-    def __txthread(self):
+    def __txthread(self, registered):
+        registered.wait()
         while self._running:
             entry = self.txq.get()
             if entry is None:
@@ -449,9 +454,10 @@ class SecopClient(ProxyClient):
         self._txthread = None
         self.disconnect(False)
 
-    def __rxthread(self):
+    def __rxthread(self, registered):
         noactivity = 0
         shutdown = False
+        registered.wait()
         try:
             while self._running:
                 while self.cleanup:
@@ -632,14 +638,24 @@ class SecopClient(ProxyClient):
         if txthread:
             self.txq.put(None)  # shutdown marker
             txthread.join()
-            self._txthread = None
+            # a connect() from an other thread might have started new threads
+            # on a new connection meanwhile: do not forget about these
+            if self._txthread is txthread:
+                self._txthread = None
         rxthread = self._rxthread
         if rxthread:
+            # the rx thread reads from the current connection: if this is not
+            # the one shut down above, it will not end by itself
+            newio = self.io
+            if newio and newio is not io:
+                newio.shutdown()
             rxthread.join()
-            self._rxthread = None
+            if self._rxthread is rxthread:
+                self._rxthread = None
         if io:
             io.disconnect()
-        self.io = None
+        if self.io is io:
+            self.io = None
         self._abort_requests()
 
     def _abort_requests(self):
